@@ -10,7 +10,10 @@ Section Tr.
   Variable sqrtT : T -> T.
   Variables half two sqrt2 : T.
 
-  Ltac untranslated Ht := first [ now (vm_compute in Ht; discriminate Ht) | idtac ].
+  (* When the source could not be translated, Gen/C03_code.v says [translated = false] and holds placeholders: the
+     premise is then false and [untranslated] closes the goal; every later sentence is written [all: ...] so that it
+     is a no-op in that case (the obligations are vacuous and the run says so). *)
+  Ltac untranslated Ht := try solve [vm_compute in Ht; discriminate Ht].
 
   (* consecutive pairs of a list *)
   Fixpoint pairs (l : list T) : list (T * T) :=
@@ -34,44 +37,52 @@ Section Tr.
     bin_edges O half (x0 :: x1 :: r) =
     code_edge_first O half x0 x1 :: map (fun ab => code_edge_mid O half (fst ab) (snd ab)) (pairs (x0 :: x1 :: r)) ++ [code_edge_last O half xp xl].
   Proof.
-    intros Ht Hr. untranslated Ht. unfold bin_edges. rewrite Hr. rewrite mids_pairs. reflexivity.
+    intros Ht Hr. untranslated Ht.
+    all: unfold bin_edges; rewrite Hr; rewrite mids_pairs; reflexivity.
   Qed.
 
   (* pinhole_resolution, one column: mask the cdf differences, divide by the column sum *)
+  Lemma pin_elems q sigma nlo nhi : translated = true -> forall q_calc ps,
+    map (fun '(qc, x) => if ltb O qc (sub O q (mul O nlo sigma)) then zero O else if ltb O (add O q (mul O nhi sigma)) qc then zero O else x)
+        (combine q_calc (map (fun ab => sub O (snd ab) (fst ab)) ps)) =
+    map (fun x => code_pin_elem O (fst x) q sigma nlo nhi (fst (snd x)) (snd (snd x))) (combine q_calc ps).
+  Proof.
+    intros Ht. untranslated Ht.
+    all: induction q_calc as [|qc qs IH]; intros [|[c0 c1] ps]; try reflexivity.
+    all: cbn [map combine fst snd]; rewrite IH; f_equal; unfold code_pin_elem.
+    all: destruct (ltb O qc _); destruct (ltb O _ qc); reflexivity.
+  Qed.
+
   Theorem code_pinhole_column q_calc cdf q sigma nlo nhi : translated = true ->
     pinhole_column O q_calc cdf q sigma nlo nhi =
     let w := map (fun x => code_pin_elem O (fst x) q sigma nlo nhi (fst (snd x)) (snd (snd x))) (combine q_calc (pairs cdf)) in
     map (fun x => div O x (sumL O w)) w.
   Proof.
-    intros Ht. untranslated Ht. unfold pinhole_column. rewrite diffs_pairs.
-    assert (E : map (fun '(qc, x) => if ltb O qc (sub O q (mul O nlo sigma)) then zero O else if ltb O (add O q (mul O nhi sigma)) qc then zero O else x)
-                  (combine q_calc (map (fun ab => sub O (snd ab) (fst ab)) (pairs cdf))) =
-                map (fun x => code_pin_elem O (fst x) q sigma nlo nhi (fst (snd x)) (snd (snd x))) (combine q_calc (pairs cdf))).
-    { generalize (pairs cdf). induction q_calc as [|qc qs IH]; intros [|[c0 c1] ps]; try reflexivity.
-      cbn [map combine fst snd]. rewrite IH. f_equal. unfold code_pin_elem.
-      destruct (ltb O qc _); destruct (ltb O _ qc); reflexivity. }
-    cbv zeta. rewrite E. reflexivity.
+    intros Ht. unfold pinhole_column. rewrite diffs_pairs. cbv zeta.
+    rewrite (pin_elems q sigma nlo nhi Ht q_calc (pairs cdf)). reflexivity.
   Qed.
 
   Theorem code_cdf_argument edge q sigma : translated = true ->
     code_cdf_arg O sqrt2 edge q sigma = div O (sub O edge q) (mul O sqrt2 sigma).
-  Proof. intros Ht. untranslated Ht. reflexivity. Qed.
+  Proof. intros Ht. untranslated Ht. all: reflexivity. Qed.
 
   (* _q_perp_weights: the difference of the square roots of the clipped u values of consecutive edges, over w *)
   Theorem code_perp_weights edges qi w : translated = true ->
     perp_weights O sqrtT edges qi w = map (fun ab => code_perp_elem O sqrtT qi w (fst ab) (snd ab)) (pairs edges).
   Proof.
-    intros Ht. untranslated Ht. unfold perp_weights. rewrite diffs_pairs, map_map.
-    induction edges as [|a l IH]; [reflexivity|]. destruct l as [|b r]; [reflexivity|].
-    change (pairs (a :: b :: r)) with ((a, b) :: pairs (b :: r)). cbn [map fst snd]. rewrite <- IH. reflexivity.
+    intros Ht. untranslated Ht.
+    all: unfold perp_weights; rewrite diffs_pairs, map_map.
+    all: induction edges as [|a l IH]; [reflexivity|]; destruct l as [|b r]; [reflexivity|].
+    all: change (pairs (a :: b :: r)) with ((a, b) :: pairs (b :: r)); cbn [map fst snd]; rewrite <- IH; reflexivity.
   Qed.
 
   (* apply_resolution_matrix, one data point: the dot product of the theory with the column *)
   Theorem code_apply_is_model theory column : translated = true ->
     code_apply O theory column = apply O theory column.
   Proof.
-    intros Ht. untranslated Ht. unfold code_apply, apply. f_equal.
-    generalize column. induction theory as [|t ts IH]; intros [|c cs]; try reflexivity.
-    cbn [combine map fst snd]. now rewrite IH.
+    intros Ht. untranslated Ht.
+    all: unfold code_apply, apply; f_equal.
+    all: generalize column; induction theory as [|t ts IH]; intros [|c cs]; try reflexivity.
+    all: cbn [combine map fst snd]; now rewrite IH.
   Qed.
 End Tr.
